@@ -16,6 +16,17 @@
 (*   c.locals  set of [i |-> block level, n |-> name, param |-> BOOLEAN]    *)
 (*   c.depth   block level (1 = function body, 2, 3 = nested blocks) of the *)
 (*             reference;  c.ref  the referenced path                       *)
+(*   c.sibs    set of [i |-> level, n |-> name]: `let`s of the SIBLING      *)
+(*             scope S(i) of block level i (i = 2, 3): a block-like scope   *)
+(*             with the same enclosing scope as B(i) that is not an         *)
+(*             ancestor of the reference (imports may have sc = S(i))       *)
+(*   c.forms   <<form of level 1, 2, 3>>: the construct that opens B(i) and *)
+(*             S(i): "plain" ({S}; {B}), "else" (if .. {S} else {B}),       *)
+(*             "then" (if .. {B} else {S}), "arm1" / "arm2" (B is the       *)
+(*             first / second arm of a match, S the other), "after"         *)
+(*             ({B}; {S}).  Every block, branch and arm opens a scope of    *)
+(*             its own under the scope around the construct, so the form    *)
+(*             never changes what a name designates.                        *)
 (*                                                                          *)
 (* The specification defines                                                *)
 (*   Modules(files)      file discovery: pkg.roto, name.roto, name/mod.roto *)
@@ -53,6 +64,8 @@ LocalI(i, n) == [k |-> "local",  p |-> NoP, n |-> n,  i |-> i]
 G    == [t |-> "g", p |-> NoP, i |-> 0]     \* global scope: runtime items and `pkg`
 M(p) == [t |-> "m", p |-> p,   i |-> 0]     \* scope of module p
 B(i) == [t |-> "b", p |-> NoP, i |-> i]     \* block level i of the probing function
+S(i) == [t |-> "s", p |-> NoP, i |-> i]     \* sibling scope of block level i (same parent as B(i))
+SibI(i, n) == [k |-> "sib", p |-> NoP, n |-> n, i |-> i]
 NoScope == [t |-> "none", p |-> NoP, i |-> 0]
 
 -----------------------------------------------------------------------------
@@ -79,14 +92,17 @@ DupModule(c) ==
   \E mp \in c.mods : mp # <<>> /\ HasFile(c.files, mp, "file") /\ HasFile(c.files, mp, "mod")
 
 (* configuration with the module tree computed once *)
-Cfg(files, items, site, imps, locals, depth, ref) ==
+NoForms == <<"plain", "plain", "plain">>
+Cfg2(files, items, site, imps, locals, depth, ref, sibs, forms) ==
   [files |-> files, mods |-> Modules(files), items |-> items, site |-> site,
-   imps |-> imps, locals |-> locals, depth |-> depth, ref |-> ref]
+   imps |-> imps, locals |-> locals, depth |-> depth, ref |-> ref, sibs |-> sibs, forms |-> forms]
+Cfg(files, items, site, imps, locals, depth, ref) ==
+  Cfg2(files, items, site, imps, locals, depth, ref, {}, NoForms)
 
 -----------------------------------------------------------------------------
 (* Scope graph                                                              *)
 
-Parent(c, s) == IF s.t = "m" THEN G ELSE IF s.i = 1 THEN M(c.site) ELSE B(s.i - 1)
+Parent(c, s) == IF s.t = "m" THEN G ELSE IF s.i = 1 THEN M(c.site) ELSE B(s.i - 1)   \* B(i) and S(i) alike
 
 (* the module a scope belongs to *)
 HomeMod(c, s) == IF s.t = "m" THEN s.p ELSE c.site
@@ -96,12 +112,14 @@ HasDecl(c, s, id) ==
     [] s.t = "m" -> \/ Append(s.p, id) \in c.mods
                     \/ [p |-> s.p, n |-> id] \in c.items
     [] s.t = "b" -> \E l \in c.locals : l.i = s.i /\ l.n = id
+    [] s.t = "s" -> \E l \in c.sibs : l.i = s.i /\ l.n = id
     [] OTHER     -> FALSE
 
 Decl(c, s, id) ==
   CASE s.t = "g" -> ModI(<<>>)
     [] s.t = "m" -> IF Append(s.p, id) \in c.mods THEN ModI(Append(s.p, id)) ELSE ItemI(s.p, id)
     [] s.t = "b" -> LocalI(s.i, id)
+    [] s.t = "s" -> SibI(s.i, id)
 
 (* later path segments: only direct members of the item before; no         *)
 (* recursion outward, no imports                                            *)
@@ -125,7 +143,7 @@ Alias(c, j)  == Last(c.imps[j].path)
 DupAlias(c) ==
   \E i, j \in 1..Len(c.imps) : i < j /\ c.imps[i].sc = c.imps[j].sc /\ Alias(c, i) = Alias(c, j)
 
-AllScopes(c) == {M(mp) : mp \in c.mods} \cup {B(1), B(2), B(3)}
+AllScopes(c) == {M(mp) : mp \in c.mods} \cup {B(1), B(2), B(3), S(2), S(3)}
 
 -----------------------------------------------------------------------------
 (* The lookup rules (order independent)                                     *)
@@ -145,8 +163,8 @@ Prov(c, s, id, self) == {j \in ImpIdx(c, s) : j # self /\ Alias(c, j) = id}
 (* they are not yet declared where an import of that very block is          *)
 (* resolved; parameters and the lets of enclosing blocks are.               *)
 NotYetDeclared(c, s, id, self) ==
-  /\ self \in 1..Len(c.imps) /\ s.t = "b" /\ c.imps[self].sc = s
-  /\ ~\E l \in c.locals : l.i = s.i /\ l.n = id /\ l.param
+  /\ self \in 1..Len(c.imps) /\ s.t \in {"b", "s"} /\ c.imps[self].sc = s
+  /\ ~(s.t = "b" /\ \E l \in c.locals : l.i = s.i /\ l.n = id /\ l.param)
 
 LookupS(c, md, s, id, self, vis) ==
   IF HasDecl(c, s, id) /\ ~NotYetDeclared(c, s, id, self) THEN Decl(c, s, id)
@@ -287,6 +305,17 @@ InnerVsOuter(c) ==
       s  == IF NSup(c.ref) > 0 \/ id = "pkg" THEN NoScope ELSE ProvScope(c, B(c.depth), id)
   IN  [t |-> s.t, i |-> s.i,
        kinds |-> IF s.t = "none" THEN {} ELSE {Decl(c, e, id).k : e \in {x \in Encl(c, s) : HasDecl(c, x, id)}}]
+
+(* sibling scopes (anti-vacuity): the sibling S(i) of a block level on the   *)
+(* path to the reference declares or imports the first segment of the       *)
+(* reference, and no block between it and the reference does - a lookup     *)
+(* that leaked into the sibling would change the outcome                    *)
+SibSensitive(c) ==
+  LET id == Head(c.ref)
+  IN  /\ NSup(c.ref) = 0 /\ id # "pkg"
+      /\ \E i \in 2..c.depth :
+            /\ (HasDecl(c, S(i), id) \/ Prov(c, S(i), id, 0) # {})
+            /\ \A j \in i..c.depth : ~HasDecl(c, B(j), id) /\ Prov(c, B(j), id, 0) = {}
 
 (* which lookup rule decides the expected resolution (anti-vacuity classes) *)
 RECURSIVE HowS(_, _, _, _)
